@@ -6,3 +6,43 @@ package nsresolver
 
 // C13 / C11: the resolver writes its own fields and its own maps only.
 //@ frame nsresolver: roots=(*NamespaceResolver).*;(*Namespace).*;NewNamespaceResolver;NewNamespace allow=F:pkg/visitor/nsresolver.NamespaceResolver.*;F:pkg/visitor/nsresolver.Namespace.*;M:map[string]string;M:map[string]map[string]string;M:map[github.com/z7zmey/php-parser/pkg/ast.Vertex]string props=C13,C11,C14
+
+// C14: which constructs resolve which names, transcribed from the property statement
+// ("every class, interface, trait, function and constant declaration is mapped to its name
+// qualified by the enclosing namespace, and every name used where PHP resolves names at compile
+// time (extends, implements, new, static access, instanceof, catch, parameter/return/property
+// types, function calls, constant fetches, trait use and adaptations) is mapped ..."). A kind that
+// is not listed must not touch the resolver ("nothing else is put in the map").
+//   ResolveName(<slot>,"<alias kind>")  – the name in that slot is resolved with that alias kind
+//   ResolveType(<slot>)                 – a type position (through Nullable; class kind)
+//   AddNamespacedName(@ | <slot>)       – the node (or each node of the slot) is a declaration
+//@ trace resolves StmtClass := AddNamespacedName(@) ResolveName(Extends,"") ResolveName(Implements[],"")
+//@ trace resolves StmtInterface := AddNamespacedName(@) ResolveName(Extends[],"")
+//@ trace resolves StmtTrait := AddNamespacedName(@)
+//@ trace resolves StmtFunction := AddNamespacedName(@) ResolveType(Params[]<Parameter>.Type) ResolveType(ReturnType)
+//@ trace resolves StmtConstList := AddNamespacedName(Consts[])
+//@ trace resolves StmtClassMethod := ResolveType(Params[]<Parameter>.Type) ResolveType(ReturnType)
+//@ trace resolves ExprClosure := ResolveType(Params[]<Parameter>.Type) ResolveType(ReturnType)
+//@ trace resolves ExprArrowFunction := ResolveType(Params[]<Parameter>.Type) ResolveType(ReturnType)
+//@ trace resolves StmtPropertyList := ResolveType(Type)
+//@ trace resolves ExprNew := ResolveName(Class,"")
+//@ trace resolves ExprStaticCall := ResolveName(Class,"")
+//@ trace resolves ExprStaticPropertyFetch := ResolveName(Class,"")
+//@ trace resolves ExprClassConstFetch := ResolveName(Class,"")
+//@ trace resolves ExprInstanceOf := ResolveName(Class,"")
+//@ trace resolves StmtCatch := ResolveName(Types[],"")
+//@ trace resolves ExprFunctionCall := ResolveName(Function,"function")
+//@ trace resolves ExprConstFetch := ResolveName(Const,"const")
+//@ trace resolves StmtTraitUse := ResolveName(Traits[],"") ResolveName(Adaptations[]<StmtTraitUsePrecedence>.Trait,"") ResolveName(Adaptations[]<StmtTraitUsePrecedence>.Insteadof[],"") ResolveName(Adaptations[]<StmtTraitUseAlias>.Trait,"")
+
+// The methods that switch the namespace context, add aliases or write the result map are pinned
+// by exact-trace contracts (a change of their behaviour changes the trace).
+//@ trace helper StmtNamespace := [($1.Name == nil)] NewNamespace(""); store &$0.Namespace := result(NewNamespace("")) || [!(($1.Name == nil))] NewNamespace(concatNameParts([$1.Name.(*ast.Name).Parts])); store &$0.Namespace := result(NewNamespace(concatNameParts([$1.Name.(*ast.Name).Parts])))
+//@ trace helper StmtUse := [($1.Type != nil)] loop($1.Uses){$0.AddAlias(convert<string>($1.Type.(*ast.Identifier).Value), $1.Uses[idx], nil)}; store &$0.goDeep := false || [!(($1.Type != nil))] loop($1.Uses){$0.AddAlias("", $1.Uses[idx], nil)}; store &$0.goDeep := false
+//@ trace helper StmtGroupUse := [($1.Type != nil)] loop($1.Uses){$0.AddAlias(convert<string>($1.Type.(*ast.Identifier).Value), $1.Uses[idx], $1.Prefix.(*ast.Name).Parts)}; store &$0.goDeep := false || [!(($1.Type != nil))] loop($1.Uses){$0.AddAlias("", $1.Uses[idx], $1.Prefix.(*ast.Name).Parts)}; store &$0.goDeep := false
+//@ trace helper AddAlias := [is($2,*ast.StmtUse) && ($2.(*ast.StmtUse).Type != nil) && ($2.(*ast.StmtUse).Alias == nil)] $0.Namespace.AddAlias(convert<string>($2.(*ast.StmtUse).Type.(*ast.Identifier).Value), concatNameParts([$3, $2.(*ast.StmtUse).Use.(*ast.Name).Parts]), convert<string>($2.(*ast.StmtUse).Use.(*ast.Name).Parts[(len($2.(*ast.StmtUse).Use.(*ast.Name).Parts) - 1)].(*ast.NamePart).Value)) || [is($2,*ast.StmtUse) && ($2.(*ast.StmtUse).Type != nil) && !(($2.(*ast.StmtUse).Alias == nil))] $0.Namespace.AddAlias(convert<string>($2.(*ast.StmtUse).Type.(*ast.Identifier).Value), concatNameParts([$3, $2.(*ast.StmtUse).Use.(*ast.Name).Parts]), convert<string>($2.(*ast.StmtUse).Alias.(*ast.Identifier).Value)) || [is($2,*ast.StmtUse) && !(($2.(*ast.StmtUse).Type != nil)) && ($2.(*ast.StmtUse).Alias == nil)] $0.Namespace.AddAlias($1, concatNameParts([$3, $2.(*ast.StmtUse).Use.(*ast.Name).Parts]), convert<string>($2.(*ast.StmtUse).Use.(*ast.Name).Parts[(len($2.(*ast.StmtUse).Use.(*ast.Name).Parts) - 1)].(*ast.NamePart).Value)) || [is($2,*ast.StmtUse) && !(($2.(*ast.StmtUse).Type != nil)) && !(($2.(*ast.StmtUse).Alias == nil))] $0.Namespace.AddAlias($1, concatNameParts([$3, $2.(*ast.StmtUse).Use.(*ast.Name).Parts]), convert<string>($2.(*ast.StmtUse).Alias.(*ast.Identifier).Value)) || [!(is($2,*ast.StmtUse))] 
+//@ trace helper AddNamespacedName := [($0.Namespace.Namespace == "")] mapupdate($0.ResolvedNames, $1, $2) || [!(($0.Namespace.Namespace == ""))] mapupdate($0.ResolvedNames, $1, (($0.Namespace.Namespace + "\\") + $2))
+//@ trace helper ResolveName := [(result($0.Namespace.ResolveName($1, $2))#1 == nil)] $0.Namespace.ResolveName($1, $2); mapupdate($0.ResolvedNames, $1, result($0.Namespace.ResolveName($1, $2))#0) || [!((result($0.Namespace.ResolveName($1, $2))#1 == nil))] $0.Namespace.ResolveName($1, $2)
+//@ trace helper ResolveType := [is($1,*ast.Nullable)] $0.ResolveType($1.(*ast.Nullable).Expr) || [!(is($1,*ast.Nullable)) && is($1,*ast.Name)] $0.ResolveName($1, "") || [!(is($1,*ast.Nullable)) && !(is($1,*ast.Name)) && is($1,*ast.NameRelative)] $0.ResolveName($1, "") || [!(is($1,*ast.Nullable)) && !(is($1,*ast.Name)) && !(is($1,*ast.NameRelative)) && is($1,*ast.NameFullyQualified)] $0.ResolveName($1, "") || [!(is($1,*ast.Nullable)) && !(is($1,*ast.Name)) && !(is($1,*ast.NameRelative)) && !(is($1,*ast.NameFullyQualified))] 
+//@ trace helper LeaveNode := [is($1,*ast.StmtNamespace) && ($1.(*ast.StmtNamespace).Stmts != nil)] NewNamespace(""); store &$0.Namespace := result(NewNamespace("")) || [is($1,*ast.StmtNamespace) && !(($1.(*ast.StmtNamespace).Stmts != nil))]  || [!(is($1,*ast.StmtNamespace))] 
+//@ trace helper EnterNode := [$0.goDeep] $1.Accept($0) => true || [!($0.goDeep)] $1.Accept($0); store &$0.goDeep := true => false
